@@ -489,6 +489,21 @@ func TestC07Parse(t *testing.T) {
 			t.Fatalf("C07 violated: %s\nschema: %s\nrequest: %s\nraw: %s", msg, ss, req, raw)
 		}
 
+		// The URL a caller holds is still that URL after other URLs were
+		// parsed (one case in three parses two more before looking again).
+		if rapid.IntRange(0, 2).Draw(t, "held") == 0 {
+			for i := 0; i < 2; i++ {
+				other := gen.URLRequest(t, ss, gen.URLOpts{}).Render(t, "render-other")
+				if _, v := parseAll(ss.Schema, other); v != "" {
+					t.Fatalf("C07 violated: %s\nschema: %s\nraw: %s", v, ss, other)
+				}
+			}
+
+			if msg := urlOracle(req, u); msg != "" {
+				t.Fatalf("C07 violated: after two other URLs were parsed, the URL parsed first reads differently: %s\nschema: %s\nrequest: %s\nraw: %s", msg, ss, req, raw)
+			}
+		}
+
 		r.Case(fmt.Sprintf("%s\n%s\nraw=%s", ss, req, raw), nontrivial, append(labels, "accepted")...)
 	}))
 }
